@@ -20,6 +20,16 @@ Definition so_ns_server : bytes := hex "6a61626265723a736572766572".
 Definition so_stanza_locals : list bytes := [hex "6971"; hex "6d657373616765"; hex "70726573656e6365"].
 Definition so_stanza_spaces : list bytes := [hex "6a61626265723a636c69656e74"; hex "6a61626265723a736572766572"; hex ""].
 
+(* ---- session.go isIQEmptySpace, session_message.go isMessageEmptySpace, session_presence.go isPresenceEmptySpace:
+        (local names, name spaces) each accepts ---- *)
+Definition so_kind_tables : list (list bytes * list bytes) := [
+  ([hex "6971"], [hex ""; hex "6a61626265723a636c69656e74"; hex "6a61626265723a736572766572"]);
+  ([hex "6d657373616765"], [hex ""; hex "6a61626265723a636c69656e74"; hex "6a61626265723a736572766572"]);
+  ([hex "70726573656e6365"], [hex ""; hex "6a61626265723a636c69656e74"; hex "6a61626265723a736572766572"])].
+
+(* ---- session.go stanzaEncoder.EncodeToken: its non-empty string literals, in order of first use ---- *)
+Definition so_se_literals : list bytes := [hex "6964"; hex "66726f6d"; hex "786d6c6e73"].
+
 (* ---- internal/attr/idgen.go, internal/stream/stream.go ---- *)
 Definition so_id_len : nat := 16.
 Definition so_ns_xml : bytes := hex "687474703a2f2f7777772e77332e6f72672f584d4c2f313939382f6e616d657370616365".
